@@ -27,12 +27,20 @@
         #tag <request>                                                                      one per request (fail = 0)
         with fail = k on a start that purges:  #tag start=err fast=0 miss=<hex|-> mem=<seq>/<off>
 
+  c14n <tag> <ids> <root> <left> <script>              sync mode over the 16384 slot tags of a cluster target
+        left = "." | rec{;rec} (the latest hash of rec.slot);  script = step{,step};  step = r | c<slot>@<mtime>
+        r = bisyncStartPoint of a fresh process (`startLatestN`), c = the next unit (100 bytes, number bisyncSeq+1,
+        recorded under ids[0]) committed into the latest hash of <slot> (`syncNStep`)
+     →  #tag start=<start>                                                              one per r
+        #tag end cur=<bisyncSeq> off=<offset> applied=<units> latest=<slot/seq/end/runid;…>
+
   c14c <tag> <ver> <runid> <seq> <offset> <t0> <events>    bisyncFrontierCoordinator
         events = ev{;ev};  ev = r<rec>@<now ns> (onCommitted) | f@<now ns> (flush)
      →  #tag <frontier seq> <frontier offset> p=<pending> a=<advanced> | <request> | …      one line per event
 -/
 import GunYu.Model.Frontier
 import GunYu.Model.FrontierProc
+import GunYu.Model.FrontierSyncN
 namespace GunYu.Drive.C14
 open GunYu GunYu.Frontier
 
@@ -139,6 +147,31 @@ def renderProc (tag : String) (ver : Bytes) (ids : List Bytes) (ns : NS) (m : Me
       s!"#{tag} start={st} n={s1.t.rq.length} fast={if fast then 1 else 0} {memStr s2.mem}"
         :: (if fail > 0 then [] else s1.t.rq.map (fun r => s!"#{tag} {reqStr r}"))
 
+def snStep? (s : String) : Option SyncNStep :=
+  if s == "r" then some .restart
+  else if s.startsWith "c" then
+    match ((s.drop 1).toString).splitOn "@" with
+    | [a, b] => do pure (.commitNext (← a.toNat?) (← b.toInt?))
+    | _ => none
+  else none
+
+def renderSyncN (tag : String) (ids : List Bytes) (s0 : SyncNSys) (steps : List SyncNStep) : List String :=
+  let N := 16384
+  let rid := ids.headD []
+  let next : Int → Int := fun o => o + 100
+  let rec go (s : SyncNSys) : List SyncNStep → List String
+    | [] =>
+      let recs := scanLatest N s.latest
+      let ls := if recs.isEmpty then "." else
+        ";".intercalate (recs.map (fun r => s!"{r.slot}/{r.seq}/{r.endOff}/{Hex.encode r.runId}"))
+      [s!"#{tag} end cur={s.cur} off={s.off} applied={s.applied.length} latest={ls}"]
+    | st :: rest =>
+      let s' := syncNStep next rid ids N s st
+      match st with
+      | .restart => s!"#{tag} start={startStr (startLatestN N (some s.root) s.latest ids)}" :: go s' rest
+      | .commitNext _ _ => go s' rest
+  go s0 steps
+
 inductive Ev | report (r : Rec) (now : Int) | flush (now : Int)
 
 def ev? (s : String) : Option Ev :=
@@ -205,6 +238,15 @@ def handle : List String → Option (List String)
         | none => "-"
         | some x => s!"{x.seq}:{x.endOff}:{x.mtime}:{Hex.encode x.runId}:{x.slot}"
       pure [s!"#{tag} best={bs} n={n}"]
+    some (r.getD [s!"#{tag} bad-op"])
+  | ["c14n", tag, ids, root, left, script] =>
+    let r : Option (List String) := do
+      let ids ← hexList? ids
+      let root ← root? root
+      let root ← root
+      let left ← list? rec? left
+      let steps ← (script.splitOn ",").mapM snStep?
+      pure (renderSyncN tag ids { root := root, latest := latestOfList (left.map (fun r => (r.slot, r))), cur := 0, off := root.2.1 } steps)
     some (r.getD [s!"#{tag} bad-op"])
   | ["c14c", tag, ver, rid, seq, off, t0, thr, ivl, evs] =>
     let r : Option (List String) := do
